@@ -24,6 +24,9 @@ type fakeReader struct {
 	same    bool
 	next    int
 	created []*scripted[*openfgav1.Tuple]
+	// trigger (see scripted.onTrig): script index (-1: every script) and position
+	trigIdx, trigPos int
+	onTrig           func()
 }
 
 func (f *fakeReader) open() (storage.TupleIterator, error) {
@@ -41,6 +44,9 @@ func (f *fakeReader) open() (storage.TupleIterator, error) {
 	}
 	it, _ := mkInner(s, itemTuple, false)
 	sc := it.(*scripted[*openfgav1.Tuple])
+	if f.onTrig != nil && (f.trigIdx < 0 || f.trigIdx == f.next-1) {
+		sc.hasTrig, sc.trigPos, sc.onTrig = true, f.trigPos, f.onTrig
+	}
 	f.created = append(f.created, sc)
 	return sc, nil
 }
@@ -87,6 +93,14 @@ const idleTime = 100 * time.Millisecond
 // [4] let every stored item expire
 func runShared(w *rec.Writer, c *caseSpec, id rec.V) {
 	reader := &fakeReader{scripts: c.In}
+	// ops with context mode 2 use tctx, which the underlying iterator of script Trig[0] cancels
+	// from inside its Next at position Trig[1]
+	tctx, tcancel := context.WithCancel(bg)
+	defer tcancel()
+	if len(c.Trig) == 2 {
+		reader.trigIdx, reader.trigPos, reader.onTrig = c.Trig[0], c.Trig[1], tcancel
+		w.Stat("shared_cancel_mid_batch_schedules", 1)
+	}
 	st := sharediterator.NewSharedIteratorDatastoreStorage(sharediterator.WithSharedIteratorDatastoreStorageLimit(c.P))
 	idle := time.Hour
 	if c.Timed {
@@ -139,6 +153,8 @@ func runShared(w *rec.Writer, c *caseSpec, id rec.V) {
 			ctx := bg
 			if o[2] == 1 {
 				ctx = cctx
+			} else if o[2] == 2 {
+				ctx = tctx
 			}
 			var t *openfgav1.Tuple
 			var err error
@@ -205,7 +221,7 @@ func runShared(w *rec.Writer, c *caseSpec, id rec.V) {
 		sops[i] = rec.LI(o)
 	}
 	w.Stat("shared_ops", len(c.SOps))
-	w.Case(c, id, lli(c.In), rec.I(c.P), rec.L(sops...), rec.L(out...), obsV(ps))
+	w.Case(c, id, lli(c.In), rec.I(c.P), rec.L(sops...), rec.L(out...), obsV(ps), rec.LI(c.Trig))
 }
 
 // idealSeq: what every reader of a script must observe: the items before the first error, then
@@ -225,6 +241,16 @@ func idealSeq(script []int) ([]int, int) {
 // of Head and Next; some stop early, some start late.  The property is checked here, directly.
 func runSharedFree(w *rec.Writer, c *caseSpec, id rec.V) {
 	reader := &fakeReader{scripts: c.In, same: true}
+	// Trig = [position, mode]: one more clone (the victim) reads with a context that the
+	// underlying iterator cancels from inside its Next at that position, i.e. in the middle of
+	// the batch the victim's call is fetching; mode 0: the victim's first read comes before the
+	// other clones start, mode 1: it races with them.  The others must not notice.
+	tctx, tcancel := context.WithCancel(bg)
+	defer tcancel()
+	if len(c.Trig) == 2 {
+		reader.trigIdx, reader.trigPos, reader.onTrig = -1, c.Trig[0], tcancel
+		w.Stat("sharedfree_cancel_mid_batch", 1)
+	}
 	st := sharediterator.NewSharedIteratorDatastoreStorage()
 	idle, admission := time.Hour, time.Hour
 	if c.Timed {
@@ -244,6 +270,27 @@ func runSharedFree(w *rec.Writer, c *caseSpec, id rec.V) {
 	}
 	var wg sync.WaitGroup
 	root := rec.NewRand(c.Seed)
+	if len(c.Trig) == 2 {
+		victim := func() {
+			it, err := openKey(bg, ds, c.Q, false)
+			if err != nil {
+				fail(fmt.Sprintf("victim: open failed: %v", err))
+				return
+			}
+			defer it.Stop()
+			for i := 0; i <= len(wantItems)+1; i++ {
+				if _, err := it.Next(tctx); err != nil {
+					return
+				}
+			}
+		}
+		if c.Trig[1] == 0 {
+			victim()
+		} else {
+			wg.Add(1)
+			go func() { defer wg.Done(); victim() }()
+		}
+	}
 	for g := 0; g < c.P; g++ {
 		r := root.Fork()
 		wg.Add(1)
